@@ -262,7 +262,7 @@ def prop_roundtrip(case):
     mixed_flags = len(set(cols["vary"])) > 1 or len(set(cols["non_negative"])) > 1
     for cond, tag in ((nested, "nested-label"), (any_numeric, "numeric-label-part"), (numeric_labels, "all-labels-numeric"), (empty_col, "empty-column"),
                       (bool(exprs), "expression"), (numeric_exprs, "all-expressions-numeric"), (flags, "non-default-flag"), (mixed_flags, "mixed-flag-column"),
-                      (bool(case.get("stale")), "stale-expression-values"), (exact, "bit-exact"), (not exact, "within-tolerance-only"),
+                      (bool(case.get("stale")), "stale-expression-values"), (exact, "bit-exact"), (not exact, "not-bit-identical-to-original"),
                       (any(len(G.references(t)) and any(r.split(".")[0] != lab.split(".")[0] for r in G.references(t)) for lab, t in trees.items()), "cross-group-reference")):
         if cond:
             tags.append(tag)
@@ -659,8 +659,8 @@ PROPERTY = Property(
             doc="as spec, plus scientific-notation strings as values of unlabelled items (automatic numbering)"),
         *(
             [Sub("na_label", prop=prop_roundtrip, strategy=lambda: G.parameter_sets(None, na_labels=True), budget={"quick": 160, "thorough": 4000},
-                 doc="opt-in (VERIF_C16_NA_LABELS=1): a flat label equal to a whole-cell missing-value token of pandas (known-finding candidate D16e)")]
-            if os.environ.get("VERIF_C16_NA_LABELS") == "1"
+                 doc="a flat label equal to a whole-cell missing-value token of pandas (known-finding candidate D16e)")]
+            if os.environ.get("VERIF_C16_NA_LABELS", "1") == "1"
             else []
         ),
         Sub("fuzz", custom=fuzz_custom, doc="atheris through hypothesis.fuzz_one_input on the csv/tsv/spec strategies (thorough only)"),
